@@ -383,6 +383,37 @@ def _r1_rest(ctx):
                              (norm_text(c.args[0]), tv), text=norm_text(c))
 
 
+class _Quiet:
+    def __init__(self, ctx):
+        self.prog = ctx.prog
+        self.findings = []
+
+    def holds(self, *a, **k):
+        pass
+
+    def violated(self, *a, **k):
+        pass
+
+
+def front_extremes(ctx):
+    """Three-point front handling only (shared with C02, R-C02-5): the front guards are a mirror pair and the caller feeds
+    the first occurrence of the maximum / minimum (np.argmax / np.argmin) of the carried residual."""
+    prog = ctx.prog
+    n = 0
+    for k in kernels(prog):
+        ty = Typer(sample_names=(k.turns,), index_names=(k.turns_index, k.sp, k.counter, k.rec, "len_turns",
+                                                            k.stack, *[p for p in k.fi.params[2:]]))
+        for a, b in k.alias.items():
+            if b == k.stack:
+                ty.env[a] = "I"
+        anti, _ = _type_function(_Quiet(ctx), k.fi, k.loop.body, ty, "affine", k.fi.name)
+        if anti:
+            _mirror_pair(ctx, prog, k, anti)
+            n += 1
+    if n == 0:
+        raise AnalysisError("no kernel with front guards found")
+
+
 def _mirror_pair(ctx, prog, k, anti):
     # the antisymmetric comparisons must form one if/elif mirror pair
     stmts = []
